@@ -28,6 +28,7 @@ op_ctx = dict(
     cls='WOP', members=['evt_'], methods=[], obj_methods=LIST, typemap=TYPEMAP,
     pre=[(r'\bevt_\.', 'evt_->'),
          (r'\b(push_front_unless_latched|try_remove)\(this\)', r'\1(&this->base)'),          # type : waiter_base upcast made explicit
+         (r'(\w+)->evt_(?:\.|->)ready\(\)', r'EV_evt_ready(\1)'),                                    # not in the pinned code: lets a variant that consults the event compile (and fail its contract)
          (r'\btry_complete\((\w+)\)', r'EV_try_complete(\1)'),                                # cancellable<> arbitration (C19)
          (r'(\w+)->reschedule\(\)', r'EV_reschedule(\1)'),                                     # schedule() on the receiver's scheduler, then set_value
          (r'(?<![\w>.])reschedule\(\)', 'EV_reschedule(this)'),
